@@ -6,3 +6,4 @@ if git diff --quiet; then echo "MUTATION DID NOT APPLY"; exit 3; fi
 cd /verif
 for c in "$@"; do ./check $c 2>&1 | grep -E "VIOLATION|INFRA|violations=" | cut -c1-300 | head -4; done
 git -C /repo checkout -- .
+cd /verif && ./check --build-only
